@@ -112,6 +112,8 @@ def klass(v, t):
 
 def evaluate(case):
     from pyx12 import validation
+    if 'seq' in case:
+        return eval_seq(case['v'], case['t'], case['cs'], case['seq'])
     v, t, cs, icvn = case['v'], case['t'], case['cs'], case['icvn']
     exp = ref(v, t, cs, icvn)
     try:
@@ -124,6 +126,25 @@ def evaluate(case):
     kind = 'accepts-invalid' if got else 'rejects-valid'
     tag = t if t not in ('ID', 'AN') else '%s/%s/%s' % (t, cs, icvn)
     return [('C13|%s|%s|%s' % (tag, kind, klass(v, t)), 'IsValidDataType(%r,%r,%r,%r) = %r, the statement says %r' % (v, t, cs, icvn, got, exp))]
+
+
+def eval_seq(v, t, cs, seq):
+    """the same value asked under several interchange versions in one process, in the given order: every answer must be
+    the one the statement gives for that version (a recogniser is a function of its arguments, whatever was asked before)"""
+    from pyx12 import validation
+    out = []
+    for k, icvn in enumerate(seq):
+        exp = ref(v, t, cs, icvn)
+        try:
+            got = validation.IsValidDataType(v, t, cs, icvn)
+        except Exception as e:
+            out.append(('C13|%s|raises %s@%s|%s' % (t, type(e).__name__, core.where(e), klass(v, t)), 'IsValidDataType(%r,%r,%r,%r) raised %r' % (v, t, cs, icvn, e)))
+            continue
+        if exp is not None and bool(got) != exp:
+            out.append(('C13|%s/%s|answer depends on the version asked before|%s' % (t, cs, klass(v, t)) if k else
+                        'C13|%s/%s/%s|%s|%s' % (t, cs, icvn, 'accepts-invalid' if got else 'rejects-valid', klass(v, t)),
+                        'IsValidDataType(%r,%r,%r,%r) = %r after asking %r, the statement says %r' % (v, t, cs, icvn, got, seq[:k], exp)))
+    return out
 
 
 # ----- enumeration -----------------------------------------------------------------------------
@@ -162,6 +183,9 @@ def space(tier):
             for icvn in ('00401', '00501'):
                 sh.append(('chars', t, cs, icvn, None))
     sh.append(('types', None, 'B', '00401', None))
+    for t in ('ID', 'AN'):
+        for cs in ('B', 'E'):
+            sh.append(('charhist', t, cs, '00401', None))
     return sh
 
 
@@ -251,6 +275,19 @@ def work(shard):
     from pyx12 import validation
     label, t0, cs, icvn, spec = shard
     P = core.Part()
+    if label == 'charhist':
+        # every code point, embedded six ways; the same string under both versions, in both orders (alternating by variant)
+        cps = list(range(0x20, 0x80)) + [0x09, 0x0A, 0xA0, 0xE9]
+        for cp in cps:
+            c = chr(cp)
+            for k, v in enumerate((c, 'A' + c, c + 'A', 'A' + c + 'B', c * 2, 'AB1 ' + c)):
+                seq = ['00401', '00501', '00401'] if k % 2 == 0 else ['00501', '00401', '00501']
+                P.n += len(seq)
+                r = eval_seq(v, t0, cs, seq)
+                P.out('charhist|%s|%s|%s' % (t0, cs, ref(v, t0, cs, '00401') == ref(v, t0, cs, '00501')))
+                for key, m in r:
+                    P.bad(key, {'v': v, 't': t0, 'cs': cs, 'seq': seq}, m)
+        return P
     for t, v in gen(shard):
         c2 = cs
         if isinstance(t, tuple):
@@ -279,7 +316,8 @@ def run(R):
                 'dates': 'every YYYYMMDD for 16 boundary years x months 00..13 x days 00..32; every YYMMDD',
                 'times': 'every HHMM, HHMMSS (HH 00..24, MM/SS 00..60), decimals, all digit strings <= 4',
                 'ranges': 'all pairs of a 19-value catalogue (8-, 6-, 12-digit dates, times, malformed) x 7 joiners, all triples of 8',
-                'chars': 'every code point 0..0x17F + 6 beyond, alone and embedded, x {B,E} x {00401,00501}'}
+                'chars': 'every code point 0..0x17F + 6 beyond, alone and embedded, x {B,E} x {00401,00501}',
+                'charhist': 'every code point 0x20..0x7F (+4) embedded six ways, asked under both versions in one process in both orders (3-step histories)'}
     R.assumptions = ['character tables and value languages are taken from the property statement / ASC X12 basic and extended sets',
                      'charset settings other than B/E and non-string values are outside the quantifier']
     R.pmap(work, shards)
